@@ -3,7 +3,10 @@
 THEOREMS = {
     "C01": {
         "modules": ["Abnf.Theorems.C01"],
-        "theorems": ["Abnf.C01.reported_end_is_derivable"],
+        "theorems": ["Abnf.C01.reported_end_is_derivable", "Abnf.C01.derivable_end_is_reported", "Abnf.C01.ends_iff_derivable",
+                     "Abnf.C01.spec_alternation", "Abnf.C01.spec_concatenation", "Abnf.C01.spec_repetition", "Abnf.C01.spec_literal",
+                     "Abnf.C01.spec_range", "Abnf.C01.spec_empty_string", "Abnf.C01.spec_prose", "Abnf.C01.fold_ascii_only",
+                     "Abnf.lparse_sound", "Abnf.lparse_complete"],
     },
     "C02": {
         "modules": ["Abnf.Theorems.C02"],
